@@ -5,7 +5,9 @@
 ID=$1; D=$2
 cd /verif
 git -C /repo apply "$D/patch.diff" || { echo "$ID $(basename $D) apply-failed"; exit 0; }
+cp evidence/$ID.json /tmp/.evidence-$ID.keep 2>/dev/null
 OUT=$(./check $ID quick 2>&1)
+[ -f /tmp/.evidence-$ID.keep ] && mv /tmp/.evidence-$ID.keep evidence/$ID.json
 FILES=$(echo "$OUT" | grep -E "^VIOLATION" | sed 's/.*replay=//' | head -3)
 R1=""; for f in $FILES; do ./check $ID --replay "$f" >/dev/null 2>&1; R1="$R1 $?"; done
 git -C /repo checkout -- .
